@@ -161,3 +161,29 @@ pub fn light_event(seed: u64, run: u32, trg: &TrgSpec) -> BankList {
     r.shuffle(&mut banks);
     banks
 }
+
+/// The same bank list with every payload copied to an address congruent to (k + shift) modulo 4
+/// (k = position in the list): MIDAS aligns bank data, but nothing in the library's contract says
+/// the slices it is handed are word-aligned. Returns the holders and the offsets.
+pub struct PlacedBanks {
+    holders: Vec<(String, Vec<u8>, usize)>,
+}
+impl PlacedBanks {
+    pub fn new(banks: &[(String, Vec<u8>)], shift: usize) -> PlacedBanks {
+        let holders = banks
+            .iter()
+            .enumerate()
+            .map(|(k, (n, d))| {
+                let off = (k + shift) % 4;
+                let mut v = Vec::with_capacity(d.len() + off);
+                v.resize(off, 0xEE);
+                v.extend_from_slice(d);
+                (n.clone(), v, off)
+            })
+            .collect();
+        PlacedBanks { holders }
+    }
+    pub fn iter(&self) -> impl Iterator<Item = (&str, &[u8])> + Clone {
+        self.holders.iter().map(|(n, v, off)| (n.as_str(), &v[*off..]))
+    }
+}
